@@ -15,6 +15,31 @@ from common import (Inconclusive, Scratch, Verdict, build_test_binary, env_seed,
                     run_test_binary, run_tlc, save_replay, write_evidence, SPEC)
 
 
+def classify_go_panic(o):
+    """(message, function, file:line) of a Go panic in the driver output whose innermost non-runtime frame is
+    code under test; None when there is no panic or the frame belongs to a harness file (zz_verif_*)."""
+    m = re.search(r"^panic: (.*)$", o, re.M)
+    if not m:
+        return None
+    msg = m.group(1).replace(" [recovered]", "")
+    g = re.search(r"^goroutine \d+ \[running\]:\n((?:.*\n)*?)(?:\n|\Z)", o[m.end():], re.M)
+    if not g:
+        return None
+    fr = g.group(1).split("\n")
+    for i in range(0, len(fr) - 1):
+        fn, loc = fr[i], fr[i + 1]
+        if not loc.startswith("\t"):
+            continue
+        if fn.startswith(("runtime.", "testing.", "panic(", "runtime/")):
+            continue
+        path = loc.strip().split(" ")[0]
+        base = os.path.basename(path)
+        if base.startswith("zz_verif"):
+            return None
+        return (msg, fn.rsplit("(", 1)[0], base)
+    return None
+
+
 def parse_bad(out, tag):
     """<<"TAG", n, {<<t, i, "op", {fields}>>, ...}>>  ->  (n, [(t, i, op, fields)])"""
     i = out.find('"%s"' % tag)
@@ -57,12 +82,20 @@ def tv_run(prop, tier, replay_path, *, harness_dirs, pkg, test, trace_module, ta
                 # Panic event first; judge the (truncated) trace
                 with open(out) as fh:
                     data = fh.read()
-                if '"ev":"Panic"' not in data:
-                    raise Inconclusive("driver %s failed (rc=%d):\n%s" % (test, rc, o[-3000:]))
                 data = data[:data.rfind("\n") + 1]
+                if '"ev":"Panic"' not in data:
+                    # a raw Go panic (not plog.Panicf): nothing flushed an event. If the panicking frame is
+                    # code under test (not a harness file) it is judged like a recorded Panic.
+                    pm = classify_go_panic(o)
+                    if pm is None:
+                        raise Inconclusive("driver %s failed (rc=%d):\n%s" % (test, rc, o[-3000:]))
+                    lines = data.strip().split("\n") if data.strip() else []
+                    last = json.loads(lines[-1]) if lines else {"t": b.get("first", 0), "i": 0}
+                    data += json.dumps({"t": last["t"], "i": last["i"] + 1, "ev": "Panic",
+                                        "msg": ("%s at %s (%s)" % pm)[:300]}) + "\n"
                 with open(out, "w") as fh:
                     fh.write(data)
-                log("driver died after a Panic event of the code under test; judging the trace up to it")
+                log("driver died after a panic of the code under test; judging the trace up to it")
             elif rc != 0 or not os.path.exists(out):
                 raise Inconclusive("driver %s failed (rc=%d):\n%s" % (test, rc, o[-3000:]))
             stats = {}
